@@ -13,7 +13,9 @@
                 on a non-conforming one
    "shapes"     every burst template is well formed; what the write-path model predicts for it
    "matrix"     the configuration matrix; rows Offset, Offset+Stride, ... are printed as BEHAVIOUR lines
-                (with the model's prediction) and replayed on the real library                        *)
+                (events of the burst, the model's prediction) and replayed on the real library
+   "hunt"       the model searches the burst shapes for the ones it predicts to go wrong on the queueing
+                cores (YMFM ring, Nuked delay queue); they are printed and replayed likewise       *)
 EXTENDS ChipFront, Json
 CONSTANTS Part, Cap, NR, MaxW, Fix, RateLo, RateHi, NF, Stride, Offset
 VARIABLES S, bad
@@ -177,6 +179,16 @@ ShapeInit == \E emu \in {0, 1, 3}, ki \in DOMAIN KindSeq, pos \in 1..3, key \in 
               \cup Lbl((emu = 3 /\ Predict(emu, evs, key) = "lost") => BurstCost({}, evs) > RingCap, "lost-needs-overflow")
 MatInit == \E k \in 0..((MatrixSize - 1 - Offset) \div Stride) :
              /\ S = [idx |-> Offset + k * Stride] /\ bad = {}
+\* "hunt": the model searches the shapes for bursts it predicts to go wrong on the queueing cores
+HuntInit == \E ei \in {2, 4, 7, 8}, ki \in DOMAIN KindSeq, pos \in 1..3, chips \in 1..3, yi \in {2, 4, 7} :
+              /\ S = [row |-> [emu |-> EmuSeq[ei], kind |-> KindSeq[ki], rate |-> RateSeq[((ki + pos + chips + yi) % 9) + 1], pos |-> pos, pcm |-> 0,
+                               key |-> KeySeq[yi], chips |-> chips, fam |-> (ki + pos + ei) % 2, end |-> EndSeq[((ki + yi + chips) % 3) + 1]]]
+              /\ bad = {}
+RowJson(row, idx) ==
+  LET evs == RowEvents(row)
+      H == HeldAfter({}, evs)
+  IN ToJson(row @@ [idx |-> idx, pred |-> RowPredict(row), evs |-> evs, offs |-> OffsOf(H),
+                    coffs |-> IF row.kind = "chord" THEN ChordCompanionsOff(row.key, ChordSize(row.chips), row.pos) ELSE <<>>])
 
 (* ------------------------------------------------------------------ dispatch *)
 Init == CASE Part = "ring" -> S = RingS0 /\ bad = {}
@@ -184,6 +196,7 @@ Init == CASE Part = "ring" -> S = RingS0 /\ bad = {}
           [] Part = "resampler" -> ResInit
           [] Part = "lifecycle" -> LcInit /\ bad = {}
           [] Part = "shapes" -> ShapeInit
+          [] Part = "hunt" -> HuntInit
           [] OTHER -> MatInit
 Next == CASE Part = "ring" -> RingNext /\ bad' = bad \cup RingBad(S')
           [] Part = "nuked" -> NukNext /\ bad' = bad \cup NukBad(S')
@@ -194,6 +207,7 @@ Spec == Init /\ [][Next]_vars
 NoBad == bad = {}
 \* the as-is ring violates P1 (finding F11); the closed forms must hold nevertheless
 NoBadClosedForm == \A x \in bad : x \in {"P1-order", "P1-once"}
-Emit == Part = "matrix" =>
-          LET row == Row(S.idx) IN PrintT(<<"BEHAVIOUR", ToJson(row @@ [idx |-> S.idx, pred |-> RowPredict(row)])>>)
+Emit == CASE Part = "matrix" -> PrintT(<<"BEHAVIOUR", RowJson(Row(S.idx), S.idx)>>)
+          [] Part = "hunt" -> (RowPredict(S.row) # "ok" => PrintT(<<"BEHAVIOUR", RowJson(S.row, -1)>>))
+          [] OTHER -> TRUE
 =============================================================================
